@@ -37,6 +37,15 @@ def wrappers():
     return ws
 
 
+def _minus(r, x):
+    """r - x, cancelling x when r is a sum that has x as a term (aligned = raw + offset written as an addition)"""
+    if r[0] == "add" and any(y is x for y in r[2:]):
+        rest = list(r[2:])
+        rest.remove(x)
+        return rest[0] if len(rest) == 1 else T.nary("add", r[1], rest)
+    return T.sub(r, x)
+
+
 def analyse_alloc(I, fname, sz, A, n):
     rule = ("allocate(n=%d): one allocation primitive of sufficient size; result aligned to %d on every path; "
             "bookkeeping word written with an access no more aligned than provable, inside the block, holding aligned-raw" % (n, A))
@@ -77,9 +86,9 @@ def analyse_alloc(I, fname, sz, A, n):
         k = A.bit_length() - 1
         if not T.is_zero(T.slice_(R, 0, k)):
             return REFUTED if R[0] != "select" else UNDECIDED, "returned pointer not provably %d-aligned: %s" % (A, T.show(R, 4)), rule, {"n": n}, None
-        ub = T.ubound(T.sub(R, raw))
+        ub = T.ubound(_minus(R, raw))
         if ub is None or ub > A - 1:
-            return UNDECIDED, "aligned - raw not bounded by A-1: %s" % T.show(T.sub(R, raw), 4), rule, None, None
+            return UNDECIDED, "aligned - raw not bounded by A-1: %s" % T.show(_minus(R, raw), 4), rule, None, None
         if size[2] < need + slack:
             return REFUTED, "over-allocation malloc(%d) cannot hold %d element bytes after aligning up by as much as %d" % (
                 size[2], need, slack), rule, {"n": n, "malloc_result_mod_A": 16 if A > 16 else 0}, None
@@ -96,7 +105,7 @@ def analyse_alloc(I, fname, sz, A, n):
             return REFUTED, ("bookkeeping word at aligned+%d..+%d can lie beyond the malloc(%d) block when malloc's result is "
                              "%d mod %d (aligned = raw+%d)" % (w.off, w.off + 8, size[2], 16 % A if A > 16 else 0, A, slack)), rule, {
                                  "n": n, "sizeof_T": sz, "malloc_result_mod_A": 16}, None
-        if w.value is None or T.sub(R, w.value) is not raw:
+        if w.value is None or (T.sub(R, w.value) is not raw and _minus(R, raw) is not w.value):
             return REFUTED, "bookkeeping word is %s, not aligned-raw" % T.show(w.value, 4), rule, {"n": n}, None
         if w.align and (w.off % w.align) != 0:
             return REFUTED, ("bookkeeping word stored with a typed align-%d store at aligned+%d: misaligned "
